@@ -60,7 +60,15 @@ CORE_MENU = [opx.MENU_STATIC[0], opx.MENU_STATIC[4], opx.MENU_STATIC[8], opx.MEN
              opx.MENU_HOLD[0], opx.MENU_HOLD[1]]
 
 
+# definitions that close dependency cycles among built files, amendments of the same paths, and
+# the events that detach and recycle steps (exit and rerun of the creator, kill and restart)
+CYCLE_MENU = [opx.MENU_STEPS[2], opx.MENU_STEPS[11], opx.MENU_AMEND[2], opx.MENU_AMEND[4]]
+
+
 def machine_for(kind, check):
+    if kind == "cycle":
+        m = opx.Machine(menu=CYCLE_MENU, check=check, targets_menu=((),), exits=["ok"], fs_events=False)
+        return m
     if kind == "core":
         m = opx.Machine(menu=CORE_MENU, check=check, targets_menu=((),), exits=["ok", "fail"])
         m.fs_core = True
@@ -71,7 +79,8 @@ def machine_for(kind, check):
 def jobs(tier, seed):
     out = []
     full_depth, core_depth = (2, 4) if tier == "quick" else (3, 6)
-    for kind, depth in (("full", full_depth), ("core", core_depth)):
+    cycle_depth = 6 if tier == "quick" else 8
+    for kind, depth in (("full", full_depth), ("core", core_depth), ("cycle", cycle_depth)):
         m = machine_for(kind, None)
         st = m.replay([("start", ())])
         for ev in st["enabled"]:
